@@ -9,6 +9,7 @@ var VfHarnesses = map[string]func(){
 	"VerifC05NodeIdPath1":      VerifC05NodeIdPath1,
 	"VerifC05NodeIdPath2":      VerifC05NodeIdPath2,
 	"VerifC05NodeIdPath3":      VerifC05NodeIdPath3,
+	"VerifC13GenerateFaults":   VerifC13GenerateFaults,
 	"VerifC20Whole":            VerifC20Whole,
 	"VerifC20InterleavedFetch": VerifC20InterleavedFetch,
 	"VerifC20InterleavedAuth":  VerifC20InterleavedAuth,
